@@ -172,14 +172,15 @@ DEFAULT_VALS = {
            {"rot": {"axis": [0.1, 0.9, -0.3], "angle": 2.3, "via": "rod"}, "t": [-3.0, 0.25, 2.0]}],
     "p2": [{"angle": 0.7, "t": [1.0, -2.0]}, {"angle": -1.9, "t": [0.5, 4.0]}, {"angle": 2.6, "t": [-3.0, 0.25]}],
     "v6": [[1.0, -2.0, 3.0, 0.5, 4.0, -6.0], [2.0, 7.0, -1.0, 3.0, 0.25, 8.0], [-3.0, 1.0, 1.5, -2.0, 9.0, 0.125]],
-    "q": [[1.0, 2.0, -3.0, 4.0], [0.5, -1.0, 2.0, 0.25], [-2.0, 0.3, 0.7, 1.1]],
+    "q": [[0.5, 0.5, -0.5, 0.5], [0.5, -1.0, 2.0, 0.25], [0.0, 0.6, 0.0, 0.8]],   # plain quaternions, two of them of unit norm
     "scalar": 2.0, "npts": 4,
 }
 
 
 def vals_strategy():
     v6 = st.lists(st.one_of(gens.signed_logmag(-2, 2), st.integers(-9, 9).map(float)), min_size=6, max_size=6)
-    q = st.lists(gens.signed_logmag(-2, 2), min_size=4, max_size=4)
+    q = st.one_of(st.lists(gens.signed_logmag(-2, 2), min_size=4, max_size=4),
+                  st.sampled_from([[0.5, 0.5, -0.5, 0.5], [1.0, 0.0, 0.0, 0.0], [0.0, 0.6, 0.0, 0.8]]))
     return st.fixed_dictionaries({
         "p3": st.lists(gens.pose3(t_hi=2, lo_exp=-6), min_size=3, max_size=3),
         "p2": st.lists(gens.pose2(t_hi=2), min_size=3, max_size=3),
